@@ -128,6 +128,7 @@ def run(ctx):
     r6_moving_average(ctx)
     r7_view_owner(ctx)
     r8_pairing_after_length(ctx)
+    r9_always_filtered(ctx)
 
 
 def _table_of(expr):
@@ -402,7 +403,49 @@ def r7_view_owner(ctx):
     ctx.floor("C18.R7", "View(...) over rows from _remove", n, 3)
 
 
+def r9_always_filtered(ctx, rule="C18.R9"):
+    """the pairing filter is computed for the arguments of THIS call: no shortcut around it, no memo in front of it."""
+    from ..cfg import CFG, forward
+    from ..util import node_ast_for_effects, self_state_stores
+    ctx.rule(rule, "every normal return of Result.filter_fin and Result._finished has passed a call of self._filter_fin with this call's arguments (must-pass on the CFG: no early "
+                   "`return self` for a 'complete' grid, no memo keyed by some of the arguments), where_fin delegates to filter_fin, and no query method of Result stores anything on the Result")
+    cls = ctx.model.cls(RES, "Result")
+    n = 0
+    for mname, callee in (("filter_fin", "_filter_fin"), ("_finished", "_filter_fin"), ("where_fin", "filter_fin")):
+        fn = cls.methods[mname]
+        ctx.touch(RES, f"Result.{mname}")
+        g = CFG(fn)
+
+        def calls(node, callee=callee):
+            a = node_ast_for_effects(node)
+            return a is not None and any(isinstance(c, ast.Call) and isinstance(c.func, ast.Attribute) and is_self_attr(c.func, callee) for c in ast.walk(a))
+        IN = forward(g, False, lambda node, st, label, calls=calls: (st if label in ("exc",) else (True if calls(node) else st)), lambda a, b: a and b)
+        n += 1
+        ctx.ob(rule, RES, f"Result.{mname}", fn, f"every normal return of {mname} has called self.{callee}", g.exit_return in IN and bool(IN[g.exit_return]), stmt=f"{mname} always calls {callee}")
+        # the arguments of the call are this call's parameters (or derived from them), not stale state
+        params = {a.arg for a in fn.args.args} | {a.arg for a in fn.args.kwonlyargs}
+        for c in [c for c in ast.walk(fn) if isinstance(c, ast.Call) and isinstance(c.func, ast.Attribute) and is_self_attr(c.func, callee)]:
+            names = {y.id for a in list(c.args) + [k.value for k in c.keywords] for y in ast.walk(a) if isinstance(y, ast.Name)}
+            n += 1
+            ctx.ob(rule, RES, f"Result.{mname}", c, "the call is made with this call's parameters", bool(names) and names <= params and not any(is_self_attr(y) for a in c.args for y in ast.walk(a)))
+    m = 0
+    for name, fn in sorted(cls.methods.items()):
+        if name in ("__init__", "set_plotter", "copy"):
+            continue
+        m += 1
+        stores = self_state_stores(fn, cls.methods.values(), ignore_accumulators=False)
+        if stores:
+            ctx.ob(rule, RES, f"Result.{name}", fn, "a query method stores nothing on the Result (no memo that could outlive its arguments)", False, detail={"stores": stores}, stmt=f"Result.{name} stores")
+    ctx.ob(rule, RES, "Result", cls.node, f"none of the {m} query methods of Result stores anything on the Result", True, stmt="Result query methods are pure", trivial=True)
+    ctx.floor(rule, "pairing-filter entry points", n, 5)
+
+
 CONTROLS = [
+    ("complete grids skip the pairing filter", RES, M.insert_before("Result.filter_fin", M.text_has("result = self._filter_fin(n, l, p)"),
+        "if not n and len(self.interactions) == len(self.environments) * len(self.learners): return self"), "C18.R9"),
+    ("finished results memoised by (l, p)", RES, M.chain(M.insert_after("Result.__init__", M.text_has("self._plotter ="), "self._fin = {}"),
+        M.replace_stmt("Result._finished", M.text_has("only_finished = self._filter_fin"),
+                       "if (str(l), str(p)) not in self._fin:\n    self._fin[str(l), str(p)] = self._filter_fin('min' if x == 'index' else None, l, p)\nonly_finished = self._fin[str(l), str(p)]")), "C18.R9"),
     ("pairing with a None level", RES, M.delete_stmt("Result._filter_fin", lambda st: isinstance(st, ast.If) and "'learner_id'" in ast.unparse(st)), "C18.R8"),
     ("global count shortcut keeps everything", RES, M.insert_before("Result._group_p", lambda st: isinstance(st, ast.Try), "if len(indexes) == n_levels * len(set(map(itemgetter(0), indexes))):\n    to_keep = [g[2:5] for g in indexes]\n    indexes = []"), "C18.R2"),
     ("pairing only before the length filter", RES, M.delete_stmt("Result._filter_fin", M.text_has("if n and n != 'min' and (l or p): result = result._group_p(l, p)")), "C18.R8"),
